@@ -247,6 +247,10 @@ def _run_schedule(drops, merges, dim, V, cnt, log, tag):
             type(a)._merge_data(a.copy().data, b.copy().data, out=out)
             a_alias = a.copy()
             type(a)._merge_data(a_alias.data, b.copy().data, out=a_alias.data)
+            # the result may also be written over the SECOND operand; the first stays as it is
+            b_alias, a_kept = b.copy(), a.copy()
+            a_kept_bytes = a_kept.data.tobytes()
+            type(a)._merge_data(a_kept.data, b_alias.data, out=b_alias.data)
             res_comp = None
             if path == "compiled":
                 outc = np.record(np.zeros_like(a.data))
@@ -287,6 +291,13 @@ def _run_schedule(drops, merges, dim, V, cnt, log, tag):
             V.append(Violation("C11.O3", f"{tag} merge {mi}: _merge_data(out=first operand) "
                                f"{a_alias.data} differs from merge() {res_new.data}",
                                {**sig, "kind": "aliased_out"}))
+        if b_alias.data.tobytes() != res_new.data.tobytes():
+            V.append(Violation("C11.O3", f"{tag} merge {mi}: _merge_data(out=second operand) "
+                               f"{b_alias.data} differs from merge() {res_new.data}",
+                               {**sig, "kind": "aliased_out_second"}))
+        if a_kept.data.tobytes() != a_kept_bytes:
+            V.append(Violation("C11.O4", f"{tag} merge {mi}: _merge_data(out=second operand) "
+                               "modified the first operand", {**sig, "kind": "first_modified"}))
         if res_comp is not None:
             names = res_new.data.dtype.names
             if any(not rel_close(res_comp[nm], res_new.data[nm], 1e-14, scale if nm == "position" else 0)
